@@ -79,6 +79,7 @@ func runOnce(t *testing.T, p *props.Prop, env *sim.Env) (rec sim.Record) {
 type replayFile struct {
 	Property string   `json:"property"`
 	Seed     uint64   `json:"seed"`
+	Index    uint64   `json:"index"`
 	Tape     []uint32 `json:"tape"`
 	UseSeed  bool     `json:"use_seed"` // ignore the tape, re-run from the seed
 }
@@ -124,6 +125,7 @@ func TestWorker(t *testing.T) {
 			env = sim.NewReplayEnv(id, r.Seed, r.Tape)
 		}
 		env.Verbose = true
+		env.Index = r.Index
 		emit(fmt.Sprintf("START %d", r.Seed))
 		rec := runOnce(t, p, env)
 		emit("REC " + rec.JSON())
@@ -156,12 +158,14 @@ func TestWorker(t *testing.T) {
 		emit(fmt.Sprintf("START %d", seed))
 		env := sim.NewEnv(id, seed)
 		env.Verbose = verbose
+		env.Index = i
 		rec := runOnce(t, p, env)
 		if rec.Violation != nil && minimise {
 			inv := rec.Violation.Invariant
 			tape, mrec, tried := sim.Minimise(rec.Tape, inv, func(tp []uint32) sim.Record {
 				e2 := sim.NewReplayEnv(id, seed, tp)
 				e2.Verbose = true
+				e2.Index = i
 				return runOnce(t, p, e2)
 			}, 400, 60*time.Second, time.Now)
 			if mrec.Violation != nil && mrec.Violation.Invariant == inv {
